@@ -55,7 +55,7 @@ def run(ctx):
     vac = ctx.tlc("MC_ServerSize", "MC_ServerSize_vac", workers=2, label="mc-size-vacuity",
                   expect_violation="SomeTruncated", count=False, coverage=False)
     ctx.require_ok(vac, "truncation occurs in the enumerated space")
-    # quick: pipelines <= 2, queue capacity 1 and 2, services single/stream2;
+    # quick: pipelines <= 2, queue capacity 1, services single/stream2
     # (both with frames written in two pieces);
     # thorough: pipelines <= 3 (single) and pipelines <= 2 with all service
     # kinds (single, stream2, fail, txn), queue capacity 1 and 2
@@ -71,7 +71,7 @@ def run(ctx):
     # accept path: failed setups, the connection limit, open/close cycles
     mc = ctx.tlc("MC_ServerConn", "MC_ServerAccept", workers=8, label="mc-accept")
     ctx.require_ok(mc, "MC_ServerAccept")
-    ctx.require_actions(mc, ["AcceptOk", "AcceptFail", "AcceptRefuse", "ConnClose"])
+    ctx.require_actions(mc, ["AcceptOk", "AcceptFail", "AcceptRefuse", "AcceptError", "ConnClose"])
     mc = ctx.tlc("MC_ServerConn", "MC_ServerDgram", workers=4, label="mc-dgram")
     ctx.require_ok(mc, "MC_ServerDgram")
     ctx.require_actions(mc, DGRAM_ACTIONS)
